@@ -203,18 +203,29 @@ def run(ctx, only=None, floors=True, clients=None):
 
     # ---- R17.2: callers of orderer push outside the SCC ('order' functions) push every item of their input
     n_order = 0
+    seen_entry = set()
     for f, b0, comp in orderers:
         for g in F.fns.values():
             if g.id in comp or g.impl != f.impl:
                 continue
             gb = Body(g)
-            pcs = [bi for bi, t in gb.calls() if callee_id(t) == f.id]
-            if not pcs:
+            if not any(callee_id(t) == f.id for bi, t in gb.calls()):
                 continue
+            # a closure that pushes (`items.iter().try_for_each(|i| this.push(i))`) belongs to the function that creates it
+            outer = g
+            while outer.kind == "Closure":
+                pid = re.sub(r"::\{closure#\d+\}$", "", outer.id)
+                if pid == outer.id or pid not in F.fns:
+                    break
+                outer = F.fns[pid]
+            if (outer.id, f.id) in seen_entry:
+                continue
+            seen_entry.add((outer.id, f.id))
             n_order += 1
-            key = g.short
+            key = outer.short
+            g = outer
             why = []
-            loops = od.loop_iterations_all_call(gb, pcs, why)
+            loops = od.every_item_handled(F, outer, lambda t, fid=f.id: callee_id(t) == fid, why)
             ok = bool(loops) and all(o for h, o in loops)
             if ok:
                 ctx.ok("R17.2", key, "every iteration of the input loop calls push")
@@ -261,7 +272,29 @@ def run(ctx, only=None, floors=True, clients=None):
         tyname = (g.self_ty or {}).get("s", "?").split("::")[-1]
         key = "process[%s]" % tyname
         site = "%s:%d" % (g.sp[0], g.sp[1])
-        pcs = [bi for bi, t in gb.calls() if re.search(r"DepOrderer::<.*>::push$", callee_name(t) or "")]
+        # helpers (and closures) of the same crate that push on behalf of `process`
+        crate = g.id.split("::")[0]
+        reach_memo = {}
+
+        def reaches_push(fid, depth=0):
+            if fid in reach_memo:
+                return reach_memo[fid]
+            reach_memo[fid] = False
+            h = F.fns.get(fid)
+            if h is None or not h.body or depth > 3 or not fid.startswith(crate + "::"):
+                return False
+            r = False
+            for bi2, t2 in Body(h).calls():
+                if re.search(r"DepOrderer::<.*>::push$", callee_name(t2) or "") or reaches_push(callee_id(t2), depth + 1):
+                    r = True
+            for cf, abb, an in od.closure_loops(F, h):
+                if reaches_push(cf.id, depth + 1):
+                    r = True
+            reach_memo[fid] = r
+            return r
+        is_push = lambda t: bool(re.search(r"DepOrderer::<.*>::push$", callee_name(t) or "")) or (callee_id(t) != g.id and reaches_push(callee_id(t)))
+        pcs = [bi for bi, t in gb.calls() if is_push(t)]
+        pcs += [abb for cf, abb, an in od.closure_loops(F, g) if reaches_push(cf.id) and abb not in pcs]
         if not pcs:
             ctx.violation("R17.3", key, "%s never pushes a dependency" % key, site)
             continue
@@ -288,7 +321,7 @@ def run(ctx, only=None, floors=True, clients=None):
         # R17.5 for clients: whether a dependency is pushed may depend only on where the dependencies are stored
         for pc in pcs:
             tt = gb.term(pc)
-            sl = ctrl.slice_paths(gb, tt["args"][1:])
+            sl = ctrl.slice_paths(gb, tt["args"])
             badp = []
             for sw in sorted(ctrl.controlling_switches(gb, pc)):
                 c = ctrl.classify_switch(gb, sw)
@@ -310,7 +343,23 @@ def run(ctx, only=None, floors=True, clients=None):
             else:
                 ctx.violation("R17.3", "%s/loop" % key, "%s: an iteration of the dependency loop can skip the push" % key, gb.site(header))
         if not loops and not (item_ty.get("k") == "adt" and item_ty["id"] in F.enums):
-            ctx.violation("R17.3", "%s/shape" % key, "%s: push is neither in a loop over dependencies nor per variant" % key, site)
+            # the loop may live in a helper / closure that pushes on behalf of `process`
+            delegated = []
+            for pc in pcs:
+                h = F.fns.get(callee_id(gb.term(pc)))
+                if h is not None and not re.search(r"DepOrderer::<.*>::push$", callee_name(gb.term(pc)) or ""):
+                    why2 = []
+                    hl = od.every_item_handled(F, h, lambda t: bool(re.search(r"DepOrderer::<.*>::push$", callee_name(t) or "")), why2)
+                    delegated.append((h, bool(hl) and all(o for _, o in hl), why2))
+            hl0 = od.every_item_handled(F, g, lambda t: bool(re.search(r"DepOrderer::<.*>::push$", callee_name(t) or "")))
+            if delegated and all(o for _, o, _ in delegated):
+                ctx.ok("R17.3", "%s/loop" % key, "every iteration pushes (loop in %s)" % ", ".join(h.short for h, _, _ in delegated))
+            elif hl0 and all(o for _, o in hl0):
+                ctx.ok("R17.3", "%s/loop" % key, "every item pushed through an iterator adapter")
+            elif delegated:
+                ctx.violation("R17.3", "%s/loop" % key, "%s: the helper that pushes the dependencies can skip one (%s)" % (key, "; ".join(w for _, _, ws in delegated for w in ws)), site)
+            else:
+                ctx.violation("R17.3", "%s/shape" % key, "%s: push is neither in a loop over dependencies nor per variant" % key, site)
     if floors:
         ctx.floor("R17.3", "DepOrder_process_impls", n_proc, 2)
     # the embedded orderers: every iteration of their dependency loops descends; the GDSII orderer descends for both
